@@ -5,11 +5,16 @@ ROOT = os.path.dirname(os.path.dirname(os.path.abspath(__file__)))
 commit = sys.argv[2] if len(sys.argv) > 2 else None
 n = 0
 for line in open(sys.argv[1], errors='replace'):
-    m = re.match(r'^(C\d\d-\d+) (C\d\d) (\{.*\})\s*$', line)
+    m = re.match(r'^(C\d\d-\d+) (C\d\d) (\{.*)$', line)
     if not m: continue
     sid, prop, js = m.groups()
     try: r = json.loads(js)
-    except Exception: continue
+    except Exception:
+        # `vp run` logs truncate long lines: recover the scalar fields, keep what is left of the counterexample text
+        g = lambda k: re.search(r'"%s": ([a-z0-9.]+)' % k, js)
+        if not (g('rc') and g('caught')): continue
+        r = dict(tier='quick', rc=int(g('rc').group(1)), violations=int(g('violations').group(1)) if g('violations') else None, caught=g('caught').group(1) == 'true',
+                 wall_s=float(g('wall_s').group(1)) if g('wall_s') else None, counterexamples=[js[js.find('"counterexamples"'):][:400] + ' ...(log line truncated)'])
     if commit: r['verif_commit'] = commit
     mp = os.path.join(ROOT, 'seeded', sid, 'meta.json')
     if not os.path.exists(mp): continue
